@@ -23,6 +23,32 @@ theorem isort_perm {α : Type} (le : α → α → Bool) (l : List α) : (isort 
 theorem mem_isort {α : Type} {le : α → α → Bool} {a : α} {l : List α} : a ∈ isort le l ↔ a ∈ l :=
   (isort_perm le l).mem_iff
 
+theorem nodup_eraseDups {α : Type} [BEq α] [LawfulBEq α] : ∀ (n : Nat) (l : List α), l.length ≤ n → l.eraseDups.Nodup := by
+  intro n
+  induction n with
+  | zero =>
+    intro l hl
+    cases l with
+    | nil => simp
+    | cons a r => simp at hl
+  | succ n ih =>
+    intro l hl
+    cases l with
+    | nil => simp
+    | cons a r =>
+      rw [List.eraseDups_cons, List.nodup_cons]
+      constructor
+      · rw [List.mem_eraseDups, List.mem_filter]
+        simp
+      · apply ih
+        have := List.length_filter_le (fun b => !b == a) r
+        simp at hl
+        omega
+
+theorem nodup_sortDedup {α : Type} [BEq α] [LawfulBEq α] (le : α → α → Bool) (l : List α) : (sortDedup le l).Nodup := by
+  unfold sortDedup
+  exact (isort_perm le _).nodup_iff.mpr (nodup_eraseDups _ _ (Nat.le_refl _))
+
 theorem isTempRule_append (a b : String) (h : isTempRule a = true) : isTempRule (a ++ b) = true := by
   unfold isTempRule at *
   rw [String.toList_append]
